@@ -34,10 +34,18 @@ def ensure_wt():
     sh("git -C %s checkout -q -- . && git -C %s clean -fdq -e target && git -C %s checkout -q --detach %s" % (WT, WT, WT, head))
 
 
+class PatchError(Exception):
+    pass
+
+
 def apply(patch):
     r = sh("git -C %s apply %s" % (WT, patch))
     if r.returncode:
-        raise SystemExit("patch does not apply: " + r.stdout)
+        # the change was made against an earlier HEAD: merge it (the blobs it was made against are in the repository)
+        r = sh("git -C %s apply --3way %s && git -C %s reset -q" % (WT, patch, WT))
+        if r.returncode:
+            sh("git -C %s checkout -q -- . ; git -C %s reset -q" % (WT, WT))
+            raise PatchError("patch does not apply: " + r.stdout)
 
 
 def unapply():
@@ -124,8 +132,13 @@ def main():
         res = {}
         only = set(a[1:])
         for sid in sorted(os.listdir(os.path.join(VERIF, "seeded"))):
-            if only and sid.split("-")[0] not in only:
+            if only and sid.split("-")[0] not in only and sid not in only:
                 continue
+            try:
+                res[sid] = run(sid, [], tier)
+            except PatchError as e:
+                print(sid, "PATCH-ERROR", str(e)[:200], flush=True)
+            continue
             if os.path.exists(os.path.join(VERIF, "seeded", sid, "patch.diff")):
                 res[sid] = run(sid, [], tier)
         print(json.dumps(res, indent=1))
